@@ -55,6 +55,7 @@ type tcpConnectionActor struct {
 	writeCloseLock sync.RWMutex
 	client         bool
 	closed         bool
+	reader         *bufio.Reader // 整个连接生命周期内共用的带缓冲读取器
 }
 
 func (c *tcpConnectionActor) OnReceive(ctx vivid.ActorContext) {
@@ -87,8 +88,12 @@ func (c *tcpConnectionActor) onLaunch(ctx vivid.ActorContext) {
 }
 
 func (c *tcpConnectionActor) onReadConn(ctx vivid.ActorContext) (fatal bool, err error) {
-	// 消息读取
-	reader := bufio.NewReader(c.conn)
+	// 消息读取。读取器必须在连接的整个生命周期内复用：bufio.Reader 一次可能从连接中读出多于当前帧的数据，
+	// 若每帧新建一个读取器，上一个读取器中已缓冲的后续帧数据会被丢弃，之后的帧边界全部错位
+	if c.reader == nil {
+		c.reader = bufio.NewReader(c.conn)
+	}
+	reader := c.reader
 	lengthBuf := make([]byte, 4)
 	if _, err = io.ReadFull(reader, lengthBuf); err != nil {
 		// 对等连接已关闭
